@@ -199,7 +199,7 @@ Section WithParams.
 
   Inductive hres :=
   | HNone                                   (* Ok(None): clean end of file *)
-  | HErr (e : err)
+  | HErr (e : err) (pos : N) (rest : list N)   (* Err: the error and where the stream stands *)
   | HFuel
   | HSome (h : header) (pos : N) (rest : list N).
 
@@ -215,18 +215,18 @@ Section WithParams.
             let pos1 := pos + 1 in
             if header_sz =? 0 then
               match r_true_up pos1 rest1 with
-              | None => HErr ETrueUp
+              | None => HErr ETrueUp pos1 rest1
               | Some (pos2, rest2) => next_header f pos2 rest2
               end
-            else if HEADER_MAX_SIZE <? header_sz then HErr EHeaderTooBig
+            else if HEADER_MAX_SIZE <? header_sz then HErr EHeaderTooBig pos1 rest1
             else
               match take_exact rest1 header_sz with
-              | None => HErr ESystem                             (* read_exact: UnexpectedEof *)
+              | None => HErr ESystem (pos1 + len rest1) []       (* read_exact: UnexpectedEof, input drained *)
               | Some (hb, rest2) =>
                   match parse_header hb with
-                  | None => HErr EUnpackHeader
+                  | None => HErr EUnpackHeader (pos1 + header_sz) rest2
                   | Some h =>
-                      if TABLE_FULL_SIZE <? h_size h then HErr ESizeExceedsMax
+                      if TABLE_FULL_SIZE <? h_size h then HErr ESizeExceedsMax (pos1 + header_sz) rest2
                       else HSome h (pos1 + header_sz) rest2
                   end
               end
@@ -235,7 +235,7 @@ Section WithParams.
 
   Inductive fres :=
   | FrNone
-  | FrErr (e : err)
+  | FrErr (e : err) (pos : N) (rest : list N)
   | FrFuel
   | FrSome (h : header) (pos : N) (rest : list N) (buffer : list N).
 
@@ -245,64 +245,68 @@ Section WithParams.
   Definition next_frame (hfuel : nat) (pos : N) (rest : list N) (buffer : list N) : fres :=
     match next_header hfuel pos rest with
     | HNone => FrNone
-    | HErr e => FrErr e
+    | HErr e p r => FrErr e p r
     | HFuel => FrFuel
     | HSome h pos1 rest1 =>
         match take_exact rest1 (h_size h) with
-        | None => FrErr ESystem
+        | None => FrErr ESystem (pos1 + len rest1) []
         | Some (body, rest2) =>
             if crc32 body =? h_crc h then FrSome h (pos1 + h_size h) rest2 (buffer ++ body)
-            else FrErr ECrc
+            else FrErr ECrc (pos1 + h_size h) rest2
         end
     end.
 
   Inductive nres :=
   | NEnd                                    (* Ok(None) *)
-  | NErr (e : err)
+  | NErr (e : err) (st : rstate)            (* Err(e); st: the iterator afterwards (buffer abandoned) *)
   | NFuel
   | NEntry (e : entry) (st : rstate).       (* Ok(Some(kvr)) *)
 
   (* fn next_from_buffer *)
   Definition next_from_buffer (pos : N) (rest : list N) (pend : list N) : nres :=
     match pend with
-    | [] => NErr EEmptyBatch
+    | [] => NErr EEmptyBatch {| r_pos := pos; r_rest := rest; r_pend := [] |}
     | _ =>
         match parse_kve pend with
-        | None => NErr EUnpackEntry
+        | None => NErr EUnpackEntry {| r_pos := pos; r_rest := rest; r_pend := [] |}
         | Some (isput, k, rem) =>
             if kv_shared k =? 0 then
               NEntry {| e_key := kv_key k; e_ts := kv_ts k;
                         e_val := if isput then Some (kv_val k) else None |}
                      {| r_pos := pos; r_rest := rest; r_pend := rem |}
-            else NErr ESharedNotZero
+            else NErr ESharedNotZero {| r_pos := pos; r_rest := rest; r_pend := [] |}
         end
     end.
 
-  (* fn next *)
+  (* fn next (with next_batch).  An error abandons the batch being read: the buffer is cleared
+     (fix 71e5745), so the state after an error has nothing pending.  Where the stream stands after
+     an error: a failed read_exact has drained the input (std's read_exact reads until EOF); the
+     other errors leave it right after what was read.  After a clean end (FrNone inside a split
+     batch, NEnd) the input is exhausted; its position no longer matters. *)
   Definition next (hfuel : nat) (st : rstate) : nres :=
     match r_pend st with
     | _ :: _ => next_from_buffer (r_pos st) (r_rest st) (r_pend st)
     | [] =>
         match next_frame hfuel (r_pos st) (r_rest st) [] with
         | FrNone => NEnd
-        | FrErr e => NErr e
+        | FrErr e p r => NErr e {| r_pos := p; r_rest := r; r_pend := [] |}
         | FrFuel => NFuel
         | FrSome h pos1 rest1 buf1 =>
             if h_disc h =? HEADER_WHOLE then next_from_buffer pos1 rest1 buf1
             else if h_disc h =? HEADER_FIRST then
               match r_true_up pos1 rest1 with
-              | None => NErr ETrueUp
+              | None => NErr ETrueUp {| r_pos := pos1; r_rest := rest1; r_pend := [] |}
               | Some (pos2, rest2) =>
                   match next_frame hfuel pos2 rest2 buf1 with
-                  | FrNone => NErr ENoSecondHeader
-                  | FrErr e => NErr e
+                  | FrNone => NErr ENoSecondHeader {| r_pos := pos2; r_rest := []; r_pend := [] |}
+                  | FrErr e p r => NErr e {| r_pos := p; r_rest := r; r_pend := [] |}
                   | FrFuel => NFuel
                   | FrSome h2 pos3 rest3 buf3 =>
                       if h_disc h2 =? HEADER_SECOND then next_from_buffer pos3 rest3 buf3
-                      else NErr EBadDiscriminant
+                      else NErr EBadDiscriminant {| r_pos := pos3; r_rest := rest3; r_pend := [] |}
                   end
               end
-            else NErr EBadDiscriminant
+            else NErr EBadDiscriminant {| r_pos := pos1; r_rest := rest1; r_pend := [] |}
         end
     end.
 
@@ -317,7 +321,7 @@ Section WithParams.
     | S f =>
         match next hfuel st with
         | NEnd => ([], REnd)
-        | NErr e => ([], RErr e)
+        | NErr e _ => ([], RErr e)
         | NFuel => ([], RFuel)
         | NEntry e st1 => let '(es, r) := read_all hfuel f st1 in (e :: es, r)
         end
@@ -325,6 +329,36 @@ Section WithParams.
 
   Definition read_log (file : list N) : list entry * rend :=
     let fuel := S (length file) in read_all fuel fuel (r0 file).
+
+  (* a consumer that keeps calling next() after the loop above stopped: what the next n calls return *)
+  Inductive ares := AEntry (e : entry) | AEnd | AErr (e : err) | AFuel.
+  Fixpoint again (hfuel : nat) (n : nat) (st : rstate) : list ares :=
+    match n with
+    | O => []
+    | S n' =>
+        match next hfuel st with
+        | NEnd => AEnd :: again hfuel n' {| r_pos := r_pos st; r_rest := []; r_pend := [] |}
+        | NErr e st1 => AErr e :: again hfuel n' st1
+        | NFuel => [AFuel]
+        | NEntry e st1 => AEntry e :: again hfuel n' st1
+        end
+    end.
+  (* read_all, also returning the iterator as the first error left it *)
+  Fixpoint read_all_st (hfuel fuel : nat) (st : rstate) : list entry * rend * option rstate :=
+    match fuel with
+    | O => ([], RFuel, None)
+    | S f =>
+        match next hfuel st with
+        | NEnd => ([], REnd, None)
+        | NErr e st1 => ([], RErr e, Some st1)
+        | NFuel => ([], RFuel, None)
+        | NEntry e st1 => let '(es, r, o) := read_all_st hfuel f st1 in (e :: es, r, o)
+        end
+    end.
+  Definition read_log_again (file : list N) (n : nat) : list entry * rend * list ares :=
+    let fuel := S (length file) in
+    let '(es, r, o) := read_all_st fuel fuel (r0 file) in
+    (es, r, match o with Some st1 => again fuel n st1 | None => [] end).
 
   (* a whole log written from nothing: per-append results and the file *)
   Definition write_log (rollover : N) (bufs : list (list N)) : list (wres * N) * list N :=
